@@ -350,13 +350,66 @@ func (e *Engine) handleFork(st *State, cond *T) *Outcome {
 }
 
 // handleConc enumerates the feasible values of r.t.
+// findSmallURem returns a sub-term of t of the form x %u N (N constant, <= 1024) through which t is
+// determined, or nil.
+func findSmallURem(t *T, depth int) *T {
+	if t == nil || depth > 8 {
+		return nil
+	}
+	if t.Op == OURem && t.B.IsConst() && t.B.K > 0 && t.B.K <= 1024 && !t.A.IsConst() {
+		return t
+	}
+	switch t.Op {
+	case OZExt, OSExt, OExtract, ONot, ONeg:
+		return findSmallURem(t.A, depth+1)
+	case OMul, OAdd, OSub, OShl, OLShr, OXor, OConcat, OAnd:
+		if t.B != nil && t.B.IsConst() {
+			return findSmallURem(t.A, depth+1)
+		}
+		if t.A.IsConst() {
+			return findSmallURem(t.B, depth+1)
+		}
+	}
+	return nil
+}
+
 func (e *Engine) handleConc(st *State, r concReq) *Outcome {
 	c := e.ctx
 	t := r.t
+	if u := findSmallURem(t, 0); u != nil {
+		// enumerate the residue with point queries (cheap) instead of a growing exclusion query
+		cur := c.Eval(u, st.model)
+		for i := uint64(0); i < u.B.K; i++ {
+			if i == cur {
+				continue
+			}
+			eq := c.Eq(u, c.Const(i, u.W))
+			res, m := e.query(st, eq)
+			if res == Unknown {
+				o := Outcome{Kind: OutUnsupported, Label: "solver unknown on residue enumeration", Site: st.site(), Stack: st.stack()}
+				return &o
+			}
+			if res == Sat {
+				n := st.clone()
+				n.model = m
+				n.addPC(eq)
+				n.subst[u] = c.Const(i, u.W)
+				e.worklist = append(e.worklist, n)
+			}
+		}
+		st.addPC(c.Eq(u, c.Const(cur, u.W)))
+		st.subst[u] = c.Const(cur, u.W)
+		st.memo = map[*T]*T{}
+		return nil
+	}
 	v0 := c.Eval(t, st.model)
 	seen := []uint64{v0}
 	excl := c.Ne(t, c.Const(v0, t.W))
+	card := cardBound(t, 0)
 	for {
+		if uint64(len(seen)) >= card {
+			break // every value the term can structurally take has been enumerated
+		}
 		res, m := e.query(st, excl)
 		if res == Unsat {
 			break
@@ -568,4 +621,60 @@ func (e *Engine) ProfileTop(n int) []string {
 		out = append(out, fmt.Sprintf("%8d %s", l[i].n, l[i].f.String()))
 	}
 	return out
+}
+
+// cardBound is a structural upper bound on the number of distinct values of t.
+func cardBound(t *T, depth int) uint64 {
+	full := uint64(1) << 63
+	if t.W < 63 {
+		full = uint64(1) << t.W
+	}
+	if depth > 8 {
+		return full
+	}
+	r := full
+	switch t.Op {
+	case OConst:
+		return 1
+	case OURem:
+		if t.B.IsConst() && t.B.K > 0 {
+			r = t.B.K
+		}
+	case OZExt, OSExt, ONot, ONeg:
+		r = cardBound(t.A, depth+1)
+	case OMul, OAdd, OSub, OXor, OShl, OLShr:
+		if t.B.IsConst() {
+			r = cardBound(t.A, depth+1)
+		} else if t.A.IsConst() {
+			r = cardBound(t.B, depth+1)
+		}
+	case OAnd:
+		if t.B.IsConst() {
+			r = uint64(1) << uint(bitsOn(t.B.K))
+		}
+	case OConcat:
+		a, b := cardBound(t.A, depth+1), cardBound(t.B, depth+1)
+		if a < 1<<20 && b < 1<<20 {
+			r = a * b
+		}
+	case OExtract:
+		r = cardBound(t.A, depth+1)
+	case OIte:
+		a, b := cardBound(t.B, depth+1), cardBound(t.C, depth+1)
+		if a < 1<<30 && b < 1<<30 {
+			r = a + b
+		}
+	}
+	if r > full {
+		r = full
+	}
+	return r
+}
+
+func bitsOn(v uint64) int {
+	n := 0
+	for ; v != 0; v &= v - 1 {
+		n++
+	}
+	return n
 }
